@@ -2,7 +2,7 @@
 from .. import core, extract
 from ..core import Suite
 
-LEAN_TARGETS = ['Uds.Props.C01', 'Uds.Tie.Tables', 'Uds.Tie.Codecs', 'Uds.Tie.Groups', 'Uds.Tie.Names']
+LEAN_TARGETS = ['Uds.Props.C01', 'Uds.Props.C01Hist', 'Uds.Tie.Tables', 'Uds.Tie.Codecs', 'Uds.Tie.Groups', 'Uds.Tie.Names']
 ASSUMPTIONS = [
     'ISO 14229-1:2020 request layouts as transcribed in Uds/Spec/Request.lean (sub-function byte with the suppress bit in bit 7, parameters unsigned big-endian in table order)',
     'DID / IO codecs are user code: the model sees a codec as its payload length and a value as the bytes its encoding has (contract: encode returns len(codec) bytes)',
